@@ -62,6 +62,12 @@ Section Fields.
     reflexivity.
   Qed.
 
+End Fields.
+
+Section Enc.
+  Variable cfg : bcfg.
+  Hypothesis Hcfg : cfg_ok cfg = true.
+
   (* when the normalised text is the encoding of the code points t, the normalised slice of the characters bc..ec is the
      encoding of t's code points bc..ec *)
   Lemma curr_slice_c_enc (t : list N) bc ec : t <> [] -> bc <= ec -> ec <= List.length t ->
@@ -76,4 +82,4 @@ Section Fields.
     rewrite (Hidx bc ltac:(lia)) in Hx. rewrite (Hidx ec Hec) in Hy. injection Hx as <-. injection Hy as <-.
     rewrite Hsl. f_equal. unfold byte_slice. cbn [fst snd]. apply NB.enc_slice_cp. exact Hle.
   Qed.
-End Fields.
+End Enc.
